@@ -7,6 +7,9 @@
      dstu   name=<oid> gen=<int> d=x<tape> e=x<tape> hash=x<octets> ld=<bits> alts=<list>
      pfok   name=<oid|test> xa=x.. xb=x.. ua=x.. ub=x..
      gf2    f=m,k3,k2,k1       trace and quadratic solver over a complete small field
+     dstuRetry name=<oid> gen=<int> plan=<branches> d=x<tape> hash=x.. ld=<bits> salt=<int>     constructed histories that force
+     g12sRetry name=<oid> plan=<branches> d=x<tape> hash=x.. salt=<int>                         the repetitions of the signing
+     bign96Retry plan=<branches> d=x<tape> hash=x.. oid=x<der> salt=<int>                       loops (see doDstuRetry)
    and logs inputs, every intermediate public value (keys, signature, compressed points, shared keys) and every
    return code.  alts: alterations of the produced signature / hash / public key (see altApply), each verified again.
    Arguments are echoed; numbers travel as octet arrays.  All buffers are malloc'ed at exactly the documented size. */
@@ -265,6 +268,229 @@ static void doDstu(const vx_cmd* c)
 	free(rec); free(xp); free(sig); free(pub); free(priv); free(hash); free((void*)td->t); free(td); free((void*)te->t); free(te); free(P);
 }
 
+/* ------------------------------------------------------------------ retry branches of the signing algorithms
+   The standards repeat the generation of the one-time key while it is out of range, while r = 0 and while s = 0.  Random
+   tapes never reach the last two branches, so the histories are CONSTRUCTED: plan=<b1,b2,...> lists the branch every draw
+   of the tape has to take before a final admissible draw:
+     dstu    e0 (zero chunk)  etop (only bits >= |n| - 1: trimmed to zero)  r0 (hash tied to the draw: h = y0 / x(eP) with
+             the low |n| - 1 bits of y0 zero)  s0 (private key tied to the draw: d = -e / r mod n, r read from a signature
+             under the key 1 on the tape (e))
+     g12s    k0  kq (= q)  kmax (all ones)  s0 (d = -k e / r mod q, r read from a signature under the key 1 on the tape (k))
+     bign96  k0  kq  kmax   (the algorithm has no other repetition)
+   The library's zz / gf2 functions are used for this CONSTRUCTION only; the line records (parameters, d, H, tape,
+   signature, return codes, number of generator calls) and spec/trace/Trace_Schemes.tla recomputes from the standard's loop
+   which draw is used and what the signature is. */
+static int planNext(const char** s, char* tok, size_t cap) { const char* n = nextTok(*s, tok, cap); if (!n) return 0; *s = n; return 1; }
+static tape_t* tapeOfBuf(const octet* b, size_t n) { tape_t* s = (tape_t*)xalloc(sizeof(tape_t)); s->t = b; s->len = n; return s; }
+static void seedOf(const vx_cmd* c) { vxSeed(vxEnvSeed() * 1000003ull + (uint64_t)vxInt(c, "salt", 1)); }
+
+static void doDstuRetry(const vx_cmd* c)
+{
+	dstu_params* P = (dstu_params*)xalloc(sizeof(*P)); const char* name = vxArg(c, "name"); const char* plan = vxArg(c, "plan"); err_t e;
+	size_t no, ono, nb, n, m, hl, dlen, ld, ntape = 0, i, hasR0 = 0, hasS0 = 0, built = 1; long long f[4]; char tok[32]; const char* s;
+	octet* hash = vxHex(c, "hash", &hl); octet* dt = vxHex(c, "d", &dlen);
+	octet* tape = (octet*)xalloc(16 * DSTU_SIZE); octet* ea = (octet*)xalloc(DSTU_SIZE); octet* eb = (octet*)xalloc(DSTU_SIZE); octet* ec = (octet*)xalloc(DSTU_SIZE);
+	octet* priv; octet* pub; octet* sig; octet* tmp; tape_t* t;
+	word* wn; word* we; word* wr; word* wd; void* zst;
+	seedOf(c);
+	e = dstuParamsStd(P, name ? name : ""); jInt("rcStd", e);
+	if (e != ERR_OK) { free(P); return; }
+	m = P->p[0]; no = O_OF_B(m);
+	{
+		octet* st = (octet*)xalloc(prngCOMBO_keep()); prngCOMBOStart(st, (u32)vxInt(c, "gen", 1));
+		e = dstuPointGen(P->P, P, prngCOMBOStepR, st); free(st); jInt("rcPointGen", e);
+	}
+	n = W_OF_O(no); wn = (word*)xalloc(O_OF_W(n)); we = (word*)xalloc(O_OF_W(n)); wr = (word*)xalloc(O_OF_W(n)); wd = (word*)xalloc(O_OF_W(n));
+	wwFrom(wn, P->n, no); nb = wwBitSize(wn, n); ono = O_OF_B(nb); n = W_OF_B(nb);
+	zst = xalloc(utilMax(2, zzInvMod_deep(n), zzMulMod_deep(n)));
+	ld = (size_t)vxInt(c, "ld", 16 * (long long)ono);
+	f[0] = P->p[0]; f[1] = P->p[1]; f[2] = P->p[2]; f[3] = P->p[3]; jIntArr("f", f, 4);
+	jInt("A", P->A); jOct("B", P->B, no); jOct("n", P->n, no); jOct("Px", P->P, no); jOct("Py", P->P + no, no);
+	priv = (octet*)xalloc(ono); pub = (octet*)xalloc(2 * no); sig = (octet*)xalloc(ld / 8 + 1); tmp = (octet*)xalloc(2 * no + ld / 8 + 1);
+	for (s = plan; s && planNext(&s, tok, sizeof tok);) { if (strcmp(tok, "r0") == 0) ++hasR0; if (strcmp(tok, "s0") == 0) ++hasS0; }
+	if (!hash) hash = (octet*)xalloc(1), hl = 0;
+	/* seeded admissible draws: |n| - 1 bits, non-zero */
+	vxRandBuf(ea, ono); vxRandBuf(eb, ono); vxRandBuf(ec, ono);
+	ea[0] |= 1; eb[0] |= 1; ec[0] |= 1;
+	for (i = nb - 1; i < 8 * ono; ++i) ea[i / 8] &= (octet)~(1 << (i % 8)), eb[i / 8] &= (octet)~(1 << (i % 8)), ec[i / 8] &= (octet)~(1 << (i % 8));
+	if (hasR0)
+	{
+		/* h <- y0 / x(ea P): the abscissa is read from the public key -(ea P) of the "private key" ea; the bits of y0 below
+		   |n| - 1 are zero, at least one of the bits |n| - 1 .. m - 1 is set */
+		size_t p4[4]; qr_o* gf = (qr_o*)xalloc(gf2Create_keep(m)); void* st = xalloc(gf2Create_deep(m)); void* st2;
+		word* x = (word*)xalloc(O_OF_W(W_OF_B(m))); word* y0 = (word*)xalloc(O_OF_W(W_OF_B(m))); octet* y0o = (octet*)xalloc(no);
+		p4[0] = P->p[0]; p4[1] = P->p[1]; p4[2] = P->p[2]; p4[3] = P->p[3];
+		t = tapeOfBuf(ea, ono);
+		if (dstuKeypairGen(priv, pub, P, tapeStep, t) != ERR_OK || t->calls != 1 || !gf2Create(gf, p4, st)) built = 0;
+		free(t);
+		if (built)
+		{
+			st2 = xalloc(gf->deep);
+			vxRandBuf(y0o, no);
+			for (i = 0; i < 8 * no; ++i) if (i < nb - 1 || i >= m) y0o[i / 8] &= (octet)~(1 << (i % 8));
+			y0o[(m - 1) / 8] |= (octet)(1 << ((m - 1) % 8));
+			if (!qrFrom(y0, y0o, gf, st2) || !qrFrom(x, pub, gf, st2) || qrIsZero(x, gf)) built = 0;
+			else
+			{
+				qrDiv(y0, y0, x, gf, st2);
+				free(hash); hl = no; hash = (octet*)xalloc(no); qrTo(hash, y0, gf, st2);
+			}
+			free(st2);
+		}
+		free(y0o); free(y0); free(x); free(st); free(gf);
+	}
+	if (hasS0 && built)
+	{
+		/* d <- -eb / r mod n with r the first component of the signature under the key 1 on the tape (eb); d has to be a key
+		   dstuKeypairGen itself returns (|n| - 1 bits): other seeded eb are tried until it is */
+		size_t tries; octet* one = (octet*)xalloc(ono); one[0] = 1; built = 0;
+		for (tries = 0; tries < 200 && !built; ++tries)
+		{
+			if (tries) { vxRandBuf(eb, ono); eb[0] |= 1; for (i = nb - 1; i < 8 * ono; ++i) eb[i / 8] &= (octet)~(1 << (i % 8)); }
+			if (hasR0 && memcmp(ea, eb, ono) == 0) continue;
+			t = tapeOfBuf(eb, ono);
+			e = dstuSign(tmp, P, 16 * ono, hash, hl, one, tapeStep, t);
+			if (e == ERR_OK && t->calls == 1)
+			{
+				wwFrom(wr, tmp, ono); wwFrom(we, eb, ono);
+				zzInvMod(wd, wr, wn, n, zst); zzMulMod(wd, wd, we, wn, n, zst); zzNegMod(wd, wd, wn, n);
+				if (!wwIsZero(wd, n) && !wwTestBit(wd, nb - 1)) built = 1;
+			}
+			free(t);
+		}
+		free(one);
+		if (built) { free(dt); dt = (octet*)xalloc(ono); dlen = ono; wwTo(dt, ono, wd); }
+	}
+	/* the tape */
+	for (s = plan; s && planNext(&s, tok, sizeof tok) && ntape + 2 * ono <= 16 * DSTU_SIZE;)
+	{
+		octet* ch = tape + ntape;
+		if (strcmp(tok, "e0") == 0) memset(ch, 0, ono);
+		else if (strcmp(tok, "etop") == 0) { memset(ch, 0, ono); for (i = nb - 1; i < 8 * ono; ++i) ch[i / 8] |= (octet)(1 << (i % 8)); }
+		else if (strcmp(tok, "r0") == 0) memcpy(ch, ea, ono);
+		else if (strcmp(tok, "s0") == 0) memcpy(ch, eb, ono);
+		else continue;
+		ntape += ono;
+	}
+	memcpy(tape + ntape, ec, ono); ntape += ono;
+	jInt("built", (long long)built); jOct("dtape", dt ? dt : tape, dt ? dlen : 0); jOct("H", hash, hl); jOct("tape", tape, ntape);
+	t = tapeOfBuf(dt, dt ? dlen : 0);
+	e = dstuKeypairGen(priv, pub, P, tapeStep, t); free(t);
+	jInt("rcGen", e); jOct("priv", priv, ono); jOct("pub", pub, 2 * no); jInt("rcPubVal", dstuPointVal(P, pub));
+	t = tapeOfBuf(tape, ntape);
+	e = dstuSign(sig, P, ld, hash, hl, priv, tapeStep, t);
+	jInt("rcSign", e); jInt("drawsSign", (long long)t->calls); jInt("ldSig", (long long)ld); jOct("sig", sig, ld / 8);
+	jInt("rcVerify", e == ERR_OK ? dstuVerify(P, ld, hash, hl, sig, pub) : -1);
+	free(t);
+	free(zst); free(wd); free(wr); free(we); free(wn); free(tmp); free(sig); free(pub); free(priv);
+	free(ec); free(eb); free(ea); free(tape); free(dt); free(hash); free(P);
+}
+
+/* out-of-range chunk of a zzRandNZMod draw for the modulus q[mo] (little-endian), nbits = |q| */
+static int rangeChunk(octet* ch, const char* tok, const octet* q, size_t mo)
+{
+	if (strcmp(tok, "k0") == 0) { memset(ch, 0, mo); return 1; }
+	if (strcmp(tok, "kq") == 0) { memcpy(ch, q, mo); return 1; }
+	if (strcmp(tok, "kmax") == 0) { memset(ch, 255, mo); return 1; }
+	return 0;
+}
+
+static void doG12sRetry(const vx_cmd* c)
+{
+	g12s_params* P = (g12s_params*)xalloc(sizeof(*P)); const char* name = vxArg(c, "name"); const char* plan = vxArg(c, "plan");
+	size_t no, mo, m, hl, dlen, ntape = 0, built = 1, hasS0 = 0; err_t e; char tok[32]; const char* s;
+	octet* hash = vxHex(c, "hash", &hl); octet* dt = vxHex(c, "d", &dlen);
+	octet* tape; octet* kb; octet* kc; octet* priv; octet* pub; octet* sig; octet* tmp; tape_t* t;
+	seedOf(c);
+	e = g12sParamsStd(P, name ? name : ""); jInt("rcStd", e);
+	if (e != ERR_OK) { free(P); return; }
+	no = memNonZeroSize(P->p, G12S_FIELD_SIZE * P->l / 512); mo = P->l / 8; m = W_OF_O(mo);
+	putG12sParams(P, no);
+	tape = (octet*)xalloc(16 * mo); kb = (octet*)xalloc(mo); kc = (octet*)xalloc(mo);
+	priv = (octet*)xalloc(mo); pub = (octet*)xalloc(2 * no); sig = (octet*)xalloc(2 * mo); tmp = (octet*)xalloc(2 * mo);
+	if (!hash || hl != mo) { octet* h2 = (octet*)xalloc(mo); if (hash) memcpy(h2, hash, hl < mo ? hl : mo); free(hash); hash = h2; }
+	for (s = plan; s && planNext(&s, tok, sizeof tok);) if (strcmp(tok, "s0") == 0) ++hasS0;
+	{
+		/* seeded admissible draws: uniform residues 1 .. q - 1 */
+		word* wq = (word*)xalloc(O_OF_W(m)); word* wk = (word*)xalloc(O_OF_W(2 * m)); void* st = xalloc(utilMax(3, zzMod_deep(2 * m, m), zzInvMod_deep(m), zzMulMod_deep(m)));
+		word* wr = (word*)xalloc(O_OF_W(m)); word* wd = (word*)xalloc(O_OF_W(m)); word* we = (word*)xalloc(O_OF_W(m)); octet* buf = (octet*)xalloc(2 * mo); int j;
+		wwFrom(wq, P->q, mo);
+		for (j = 0; j < 2; ++j)
+		{
+			do { vxRandBuf(buf, 2 * mo); wwFrom(wk, buf, 2 * mo); zzMod(wk, wk, 2 * m, wq, m, st); } while (wwIsZero(wk, m));
+			wwTo(j ? kc : kb, mo, wk);
+		}
+		if (hasS0)
+		{
+			/* d <- -kb e / r mod q, r = first (big-endian) half of the signature under the key 1 on the tape (kb) */
+			octet* one = (octet*)xalloc(mo); one[0] = 1;
+			t = tapeOfBuf(kb, mo);
+			e = g12sSign(tmp, P, hash, one, tapeStep, t);
+			if (e != ERR_OK || t->calls != 1) built = 0;
+			else
+			{
+				memcpy(buf, tmp, mo); oRev(buf, mo); wwFrom(wr, buf, mo);
+				memcpy(buf, hash, mo); oRev(buf, mo); wwFrom(we, buf, mo); zzMod(we, we, m, wq, m, st); if (wwIsZero(we, m)) we[0] = 1;
+				wwFrom(wk, kb, mo);
+				zzInvMod(wd, wr, wq, m, st); zzMulMod(wd, wd, wk, wq, m, st); zzMulMod(wd, wd, we, wq, m, st); zzNegMod(wd, wd, wq, m);
+				if (wwIsZero(wd, m)) built = 0;
+				else { free(dt); dt = (octet*)xalloc(mo); dlen = mo; wwTo(dt, mo, wd); }
+			}
+			free(t); free(one);
+		}
+		free(buf); free(we); free(wd); free(wr); free(st); free(wk); free(wq);
+	}
+	for (s = plan; s && planNext(&s, tok, sizeof tok) && ntape + 2 * mo <= 16 * mo;)
+	{
+		octet* ch = tape + ntape;
+		if (rangeChunk(ch, tok, P->q, mo)) ntape += mo;
+		else if (strcmp(tok, "s0") == 0) { memcpy(ch, kb, mo); ntape += mo; }
+	}
+	memcpy(tape + ntape, kc, mo); ntape += mo;
+	jInt("built", (long long)built); jOct("dtape", dt ? dt : tape, dt ? dlen : 0); jOct("H", hash, mo); jOct("tape", tape, ntape);
+	t = tapeOfBuf(dt, dt ? dlen : 0);
+	e = g12sKeypairGen(priv, pub, P, tapeStep, t); free(t);
+	jInt("rcGen", e); jOct("priv", priv, mo); jOct("pub", pub, 2 * no);
+	t = tapeOfBuf(tape, ntape);
+	e = g12sSign(sig, P, hash, priv, tapeStep, t);
+	jInt("rcSign", e); jInt("drawsSign", (long long)t->calls); jOct("sig", sig, 2 * mo);
+	jInt("rcVerify", e == ERR_OK ? g12sVerify(P, hash, sig, pub) : -1);
+	free(t);
+	free(tmp); free(sig); free(pub); free(priv); free(kc); free(kb); free(tape); free(dt); free(hash); free(P);
+}
+
+static void doBign96Retry(const vx_cmd* c)
+{
+	bign_params* P = (bign_params*)xalloc(sizeof(*P)); const char* plan = vxArg(c, "plan"); err_t e; char tok[32]; const char* s;
+	size_t hl, ol, dlen, ntape = 0; octet* hash = vxHex(c, "hash", &hl); octet* oid = vxHex(c, "oid", &ol); octet* dt = vxHex(c, "d", &dlen);
+	octet* tape = (octet*)xalloc(16 * 24); octet* kc = (octet*)xalloc(24); octet* priv = (octet*)xalloc(24); octet* pub = (octet*)xalloc(48); octet* sig = (octet*)xalloc(34);
+	tape_t* t;
+	seedOf(c);
+	e = bign96ParamsStd(P, "1.2.112.0.2.0.34.101.45.3.0"); jInt("rcStd", e);
+	if (!hash || hl != 24) { octet* h2 = (octet*)xalloc(24); if (hash) memcpy(h2, hash, hl < 24 ? hl : 24); free(hash); hash = h2; }
+	jOct("p", P->p, 24); jOct("pa", P->a, 24); jOct("pb", P->b, 24); jOct("q", P->q, 24); jOct("yG", P->yG, 24);
+	{
+		word* wq = (word*)xalloc(24); word* wk = (word*)xalloc(48); void* st = xalloc(zzMod_deep(W_OF_O(48), W_OF_O(24))); octet* buf = (octet*)xalloc(48);
+		wwFrom(wq, P->q, 24);
+		do { vxRandBuf(buf, 48); wwFrom(wk, buf, 48); zzMod(wk, wk, W_OF_O(48), wq, W_OF_O(24), st); } while (wwIsZero(wk, W_OF_O(24)));
+		wwTo(kc, 24, wk);
+		free(buf); free(st); free(wk); free(wq);
+	}
+	for (s = plan; s && planNext(&s, tok, sizeof tok) && ntape + 48 <= 16 * 24;)
+		if (rangeChunk(tape + ntape, tok, P->q, 24)) ntape += 24;
+	memcpy(tape + ntape, kc, 24); ntape += 24;
+	jInt("built", 1); jOct("dtape", dt ? dt : tape, dt ? dlen : 0); jOct("H", hash, 24); jOct("tape", tape, ntape);
+	t = tapeOfBuf(dt, dt ? dlen : 0);
+	e = bign96KeypairGen(priv, pub, P, tapeStep, t); free(t);
+	jInt("rcGen", e); jOct("priv", priv, 24); jOct("pub", pub, 48);
+	t = tapeOfBuf(tape, ntape);
+	e = bign96Sign(sig, P, oid, ol, hash, priv, tapeStep, t);
+	jInt("rcSign", e); jInt("drawsSign", (long long)t->calls); jOct("sig", sig, 34);
+	jInt("rcVerify", e == ERR_OK ? bign96Verify(P, oid, ol, hash, sig, pub) : -1);
+	free(t);
+	free(sig); free(pub); free(priv); free(kc); free(tape); free(dt); free(oid); free(hash); free(P);
+}
+
 /* compression / recovery of given abscissas on a standard curve (x = 0 and seeded abscissas) */
 static void doDstuPoint(const vx_cmd* c)
 {
@@ -374,6 +600,9 @@ int main(int argc, char** argv)
 		else if (strcmp(c.op, "bign96") == 0) doBign96(&c);
 		else if (strcmp(c.op, "dstu") == 0) doDstu(&c);
 		else if (strcmp(c.op, "dstuPoint") == 0) doDstuPoint(&c);
+		else if (strcmp(c.op, "dstuRetry") == 0) doDstuRetry(&c);
+		else if (strcmp(c.op, "g12sRetry") == 0) doG12sRetry(&c);
+		else if (strcmp(c.op, "bign96Retry") == 0) doBign96Retry(&c);
 		else if (strcmp(c.op, "pfok") == 0) doPfok(&c);
 		else if (strcmp(c.op, "gf2") == 0) doGf2(&c);
 		else jInt("unknown", 1);
